@@ -299,4 +299,98 @@ example : Gen.Funcs.Zip [[1, 2, 3], [4, 5, 6]] = .error .panic := by rfl
 example : Gen.Funcs.Unzip [[1, 2], [3]] = .error .panic := by rfl
 example : Gen.Funcs.Zip [] = .ok [] := by rfl
 
+/-! ## find.go: the by-key extrema over slices of maps (C13) -/
+
+theorem c13_mapHas (m : List (Int × Int)) (k : Int) :
+    Gen.Funcs.mapHas m k = (Model.C13.mapGet k m).isSome := by
+  induction m with
+  | nil => rfl
+  | cons e r ih =>
+    obtain ⟨a, b⟩ := e
+    simp only [Gen.Funcs.mapHas, Model.C13.mapGet]
+    by_cases h : a = k <;> simp [h, ih]
+
+theorem c13_mapGet (m : List (Int × Int)) (k : Int) :
+    Gen.Funcs.mapGet m k 0 = (Model.C13.mapGet k m).getD 0 := by
+  induction m with
+  | nil => rfl
+  | cons e r ih =>
+    obtain ⟨a, b⟩ := e
+    simp only [Gen.Funcs.mapGet, Model.C13.mapGet]
+    by_cases h : a = k <;> simp [h, ih]
+
+theorem c13_findByKey_loop (m0 : List (Int × Int)) (fn : Int → Bool) (m : List (Int × Int)) :
+    (match Gen.Funcs.FindByKey.loop1 m0 fn m [] with | Sum.inl s => s | Sum.inr s => s) = Model.C13.FindByKey fn m := by
+  induction m with
+  | nil => rfl
+  | cons e r ih =>
+    obtain ⟨k, v⟩ := e
+    simp only [Gen.Funcs.FindByKey.loop1, Model.C13.FindByKey]
+    by_cases h : fn k = true
+    · simp [h, Gen.Funcs.mapSet]
+    · simp only [h, Bool.false_eq_true, if_false]; exact ih
+
+theorem c13_findByKey (m : List (Int × Int)) (fn : Int → Bool) :
+    Gen.Funcs.FindByKey m fn = Model.C13.FindByKey fn m := by
+  simp only [Gen.Funcs.FindByKey]
+  exact c13_findByKey_loop m fn m
+
+theorem findMinByKey_loop (s0 : List (List (Int × Int))) (key : Int) (s : List (List (Int × Int))) (i mn : Int) :
+    Gen.Funcs.FindMinByKey.loop1 s0 key s i mn = Model.C13.minByKeyLoop key s mn := by
+  induction s generalizing i mn with
+  | nil => rfl
+  | cons m r ih =>
+    simp only [Gen.Funcs.FindMinByKey.loop1, Model.C13.minByKeyLoop, c13_findByKey, c13_mapHas, c13_mapGet]
+    have hfn : (fun k : Int => decide (k = key)) = (fun k => k == key) := by
+      funext k; by_cases hk : k = key <;> simp [hk]
+    rw [hfn]
+    cases h : Model.C13.mapGet key (Model.C13.FindByKey (fun k => k == key) m) with
+    | none => simp [ih]
+    | some v => by_cases hv : v < mn <;> simp [hv, ih]
+
+theorem findMaxByKey_loop (s0 : List (List (Int × Int))) (key : Int) (s : List (List (Int × Int))) (i mx : Int) :
+    Gen.Funcs.FindMaxByKey.loop1 s0 key s i mx = Model.C13.maxByKeyLoop key s mx := by
+  induction s generalizing i mx with
+  | nil => rfl
+  | cons m r ih =>
+    simp only [Gen.Funcs.FindMaxByKey.loop1, Model.C13.maxByKeyLoop, c13_findByKey, c13_mapHas, c13_mapGet]
+    have hfn : (fun k : Int => decide (k = key)) = (fun k => k == key) := by
+      funext k; by_cases hk : k = key <;> simp [hk]
+    rw [hfn]
+    cases h : Model.C13.mapGet key (Model.C13.FindByKey (fun k => k == key) m) with
+    | none => simp [ih]
+    | some v => by_cases hv : v > mx <;> simp [hv, ih]
+
+/-- the model answers `(isErr, value)`; the regenerated function answers `Exc.err` or the value -/
+def ofErrPair : Bool × Int → Res Int
+  | (true, _) => Except.error Exc.err
+  | (false, v) => Except.ok v
+
+theorem findMinByKey_tie (s : List (List (Int × Int))) (key : Int) :
+    Gen.Funcs.FindMinByKey s key = ofErrPair (Model.C13.FindMinByKey s key) := by
+  cases s with
+  | nil => rfl
+  | cons m0 r =>
+    simp only [Gen.Funcs.FindMinByKey, Model.C13.FindMinByKey, c13_mapHas, c13_mapGet]
+    cases h : Model.C13.mapGet key m0 with
+    | none => simp [ofErrPair]
+    | some v0 => simp [ofErrPair, findMinByKey_loop]
+
+theorem findMaxByKey_tie (s : List (List (Int × Int))) (key : Int) :
+    Gen.Funcs.FindMaxByKey s key = ofErrPair (Model.C13.FindMaxByKey s key) := by
+  cases s with
+  | nil => rfl
+  | cons m0 r =>
+    simp only [Gen.Funcs.FindMaxByKey, Model.C13.FindMaxByKey, c13_mapHas, c13_mapGet]
+    cases h : Model.C13.mapGet key m0 with
+    | none => simp [ofErrPair]
+    | some v0 => simp [ofErrPair, findMaxByKey_loop]
+
+/-- `ToSlice(args...)`: `make([]T, 0, len(args))` then `append(slice, args...)` = the arguments -/
+theorem toSlice_tie (args : List Int) : Gen.Funcs.ToSlice args = args := by
+  simp [Gen.Funcs.ToSlice]
+
+example : Gen.Funcs.FindMinByKey [[(1, 5), (2, 9)], [(2, 3)], [(1, 4)]] 2 = Except.ok 3 := by rfl
+example : Gen.Funcs.FindMinByKey [[(1, 5)], [(2, 3)]] 2 = Except.error Exc.err := by rfl
+
 end GoguVerif.Theorems.GenTieMore
